@@ -1,5 +1,6 @@
 """Symbolic and meta-level values, coercions, Python operator semantics."""
 import z3
+from .types import PATH
 from .types import (Ty, INT, BOOL, STR, ANY, NONE, OptT, TupT, SeqT, SetT, DictT, ObjT,
                     sort_of, opt_none, opt_some, opt_is_none, opt_val, tup_mk, tup_get,
                     Ref, unit_val)
@@ -320,7 +321,7 @@ def truthy(v):
         if isinstance(t, OptT):
             inner = SV(t.inner, opt_val(t, v.z))
             return z3.And(z3.Not(opt_is_none(t, v.z)), truthy(inner))
-        if isinstance(t, ObjT):
+        if isinstance(t, ObjT) or t == PATH or t == ANY:
             return z3.BoolVal(True)     # families have no __bool__/__len__ unless stated
         if isinstance(t, TupT):
             return z3.BoolVal(len(t.items) > 0)
@@ -404,7 +405,7 @@ def py_eq(a, b):
             if u is not None:
                 return pack(a, u) == pack(b, u)
         # values of unrelated builtin types never compare equal
-        prim = (INT, BOOL, STR)
+        prim = (INT, BOOL, STR, PATH)
         if (a.t in prim or isinstance(a.t, (TupT, SeqT))) and (b.t in prim or isinstance(b.t, (TupT, SeqT))):
             return z3.BoolVal(False)
         raise Unsupported('== between %s and %s' % (a.t, b.t))
